@@ -135,7 +135,7 @@ func (r *run) idOfHash(h hotstuff.Hash) int {
 }
 
 func (r *run) absSync(si hotstuff.SyncInfo) obj {
-	a := obj{"qc": -2, "qcv": 0, "tc": -1, "agg": -1}
+	a := obj{"qc": -2, "qcv": 0, "tc": -1, "agg": -1, "aggqcs": [][2]int{}}
 	if qc, ok := si.QC(); ok {
 		a["qc"], a["qcv"] = r.idOfHash(qc.BlockHash()), int(qc.View())
 		a["qcsig"] = sigAbs(r, qc.Signature())
@@ -146,14 +146,29 @@ func (r *run) absSync(si hotstuff.SyncInfo) obj {
 	}
 	if ag, ok := si.AggQC(); ok {
 		a["agg"] = int(ag.View())
+		a["aggqcs"] = r.absAgg(ag)
 	}
 	return a
+}
+
+// absAgg: the blocks certified by the QCs an aggregate QC carries, as (signer, block id) pairs sorted by signer
+func (r *run) absAgg(ag hotstuff.AggregateQC) [][2]int {
+	out := [][2]int{}
+	for id, qc := range ag.QCs() {
+		out = append(out, [2]int{int(id), r.idOfHash(qc.BlockHash())})
+	}
+	sort.Slice(out, func(i, j int) bool { return out[i][0] < out[j][0] })
+	return out
 }
 
 func (r *run) absMsg(m any) obj {
 	switch v := m.(type) {
 	case hotstuff.ProposeMsg:
-		return obj{"type": "propose", "from": int(v.ID), "block": r.regBlock(v.Block), "view": int(v.Block.View()), "agg": v.AggregateQC != nil}
+		a := obj{"type": "propose", "from": int(v.ID), "block": r.regBlock(v.Block), "view": int(v.Block.View()), "agg": v.AggregateQC != nil, "aggv": -1, "aggqcs": [][2]int{}}
+		if v.AggregateQC != nil {
+			a["aggv"], a["aggqcs"] = int(v.AggregateQC.View()), r.absAgg(*v.AggregateQC)
+		}
+		return a
 	case hotstuff.VoteMsg:
 		return obj{"type": "vote", "from": int(v.ID), "block": r.idOfHash(v.PartialCert.BlockHash()), "signers": sigAbs(r, v.PartialCert.Signature())}
 	case hotstuff.TimeoutMsg:
